@@ -503,7 +503,16 @@ impl Transport for LocalTransport {
 
             // Strategy 1: COW clone + selective writes (fast on APFS/BTRFS/XFS)
             // Strategy 2: In-place delta (for ext4, hard links, cross-filesystem)
-            let temp_dest = dest.with_extension("sy.tmp");
+            // Append to the full file name (with_extension would map `a.bin` and
+            // `a.dat` to the same `a.sy.tmp`)
+            let temp_dest = {
+                let mut name = dest
+                    .file_name()
+                    .map(|n| n.to_os_string())
+                    .unwrap_or_default();
+                name.push(".sy.tmp");
+                dest.with_file_name(name)
+            };
             let temp_guard = TempFileGuard::new(&temp_dest);
 
             let (bytes_written, literal_bytes, changed_blocks) = if use_cow_strategy {
